@@ -69,6 +69,24 @@ def network(case):
         aux = {"vinA": list(range(n["A"])), "vinB": list(range(n["B"])), "vout": list(range(n["C"]))}
         concs = {"A": A, "B": B, "C": C}
         fluxes = {"vinA": 1.0, "vinB": 1.0, "v1": 1.0, "vout": 1.0}
+    elif net == "dimer-split":  # A(2n) -> 2 B(n)
+        A, B = 0.5, 2.0
+        m.add_variables({"A": A, "B": B}).add_parameters({"ka": 1.0, "k1": 2.0, "kb": 1.0})
+        m.add_reaction("vinA", cin, args=["ka"], stoichiometry={"A": 1})
+        m.add_reaction("v1", ma1, args=["A", "k1"], stoichiometry={"A": -1, "B": 2})
+        m.add_reaction("voutB", ma1, args=["B", "kb"], stoichiometry={"B": -1})
+        aux = {"vinA": list(range(n["A"])), "voutB": list(range(n["B"]))}
+        concs = {"A": A, "B": B}
+        fluxes = {"vinA": 1.0, "v1": 1.0, "voutB": 2.0}
+    elif net == "dimer-merge":  # 2 B(n) -> C(2n)
+        B, C = 2.0, 1.25
+        m.add_variables({"B": B, "C": C}).add_parameters({"kb": 2.0, "k1": 0.25, "k2": 0.8})
+        m.add_reaction("vinB", cin, args=["kb"], stoichiometry={"B": 1})
+        m.add_reaction("v1", ma2, args=["B", "B", "k1"], stoichiometry={"B": -2, "C": 1})
+        m.add_reaction("vout", ma1, args=["C", "k2"], stoichiometry={"C": -1})
+        aux = {"vinB": list(range(n["B"])), "vout": list(range(n["C"]))}
+        concs = {"B": B, "C": C}
+        fluxes = {"vinB": 2.0, "v1": 1.0, "vout": 1.0}
     else:  # split
         A, B, C = 0.5, 2.0, 1.25
         m.add_variables({"A": A, "B": B, "C": C}).add_parameters({"kc": 1.0, "k1": 0.8, "ka": 2.0, "kb": 0.5})
@@ -85,10 +103,12 @@ def network(case):
 def generate(tier):
     cases = []
     shapes = [("chain", {"A": k, "B": k}) for k in (1, 2, 3)] + [("merge", {"A": 1, "B": 2, "C": 3}), ("split", {"A": 1, "B": 2, "C": 3})]
+    # a species with coefficient 2: its molecules' positions must be paired molecule by molecule
+    shapes += [("dimer-split", {"A": 2, "B": 1}), ("dimer-merge", {"B": 1, "C": 2}), ("dimer-split", {"A": 4, "B": 2}), ("dimer-merge", {"B": 2, "C": 4})]
     if tier == "thorough":
         shapes += [("chain", {"A": 4, "B": 4}), ("merge", {"A": 2, "B": 2, "C": 4}), ("split", {"A": 2, "B": 2, "C": 4}), ("merge", {"A": 2, "B": 1, "C": 3})]
     for net, n in shapes:
-        total = max(n.values()) if net == "chain" else n["C"]
+        total = max(n.values())
         for perm in it.permutations(range(total)):
             cases.append({"net": net, "n": n, "map": list(perm), "kind": "dynamics"})
             cases.append({"net": net, "n": n, "map": list(perm), "kind": "stationary"})
